@@ -41,10 +41,13 @@ func runC10(c *Ctx) {
 	}
 	// shared with C03: the tokens a match is read from exist - the guard that a scored candidate has at least one token
 	// left dominates the indexing of the input's tokens (R03.2, R03.3)
-	borrowRules(c, []string{"R03.2", "R03.3"}, runC03)
+	borrowRules(c, []string{"R03.2", "R03.3", "R03.11"}, runC03)
 	// shared with C08: the tokenizer fails only when its reader fails (R08.7) - Normalize panics on a tokenizer error and
 	// AddContent dereferences the nil document
-	borrowRules(c, []string{"R08.7"}, runC08)
+	// ... and a reader error other than the end of the input ends the call at once (R08.1): treated as "more to come" it
+	// makes the read loop spin on stale bytes for ever. Line breaks held back for a hyphenated word are paid exactly once
+	// (R03.11): re-added on every later line they make Normalize write, and Match count, a quadratic number of lines
+	borrowRules(c, []string{"R08.7", "R08.1"}, runC08)
 	c.R.Assume("non-constant index arithmetic (filter[off], hits[idx], diffs[start:end], Tokens[startIndex+startOffset]) is outside what this rule decides")
 	fns := v2LibFuncs(p)
 	c.R.Count("R10.1:functions", len(fns))
@@ -69,6 +72,7 @@ func runC10(c *Ctx) {
 
 	// R10.5 integer divisions
 	checkIntDivisions(c, p, fns)
+	checkPairwiseLoops(c, p, fns)
 	// R10.6 no quadratic string accumulation
 	checkStringAccumulation(c, p, fns)
 	// R10.7 lazily built parts of a document exist wherever they are used
@@ -610,4 +614,68 @@ func rangedOver(fn *ssa.Function, m ssa.Value) bool {
 		}
 	}
 	return false
+}
+
+
+// checkPairwiseLoops: R10.9. A loop over a list nested in a loop over the same list does a quadratic amount of work in the
+// length of the list. That is harmless for lists whose length is set by the corpus; it is not for a list that holds an
+// entry per line of the input (the notice pseudo-matches): a megabyte of short notice lines keeps Match busy for minutes.
+func checkPairwiseLoops(c *Ctx, p *core.Prog, fns []*ssa.Function) {
+	n := 0
+	for _, fn := range fns {
+		if isTraceFn(fn) {
+			continue
+		}
+		loops := rangeLoopsOf(fn)
+		for _, outer := range loops {
+			if _, isSl := outer.over.Type().Underlying().(*types.Slice); !isSl {
+				continue
+			}
+			body := naturalLoop(outer.header)
+			for _, inner := range loops {
+				if inner.header == outer.header || !body[inner.header] {
+					continue
+				}
+				if _, isSl := inner.over.Type().Underlying().(*types.Slice); !isSl {
+					continue
+				}
+				if inner.over != outer.over && !sameSliceBase(inner.over, outer.over) {
+					continue
+				}
+				n++
+				// whose length does the input set? a list that is extended by a slice taken from the tokenized input
+				perInput := false
+				for v := range sliceFamily(outer.over) {
+					if call, ok := v.(*ssa.Call); ok {
+						if bi, isB := call.Call.Value.(*ssa.Builtin); isB && bi.Name() == "append" && len(call.Call.Args) == 2 {
+							arg := call.Call.Args[1]
+							for k := 0; k < 3; k++ {
+								switch x := arg.(type) {
+								case *ssa.ChangeType:
+									arg = x.X
+								case *ssa.Slice:
+									arg = x.X
+								case *ssa.Convert:
+									arg = x.X
+								}
+							}
+							if ld, isLd := arg.(*ssa.UnOp); isLd {
+								if fa, isFA := ld.X.(*ssa.FieldAddr); isFA && strings.HasSuffix(core.TypeName(fa.X.Type()), "/v2.indexedDocument") {
+									perInput = true
+								}
+							}
+						}
+					}
+				}
+				key := core.ShortFn(fn) + ": every element of " + core.TypeName(outer.over.Type()) + " is compared with the elements before it"
+				if perInput {
+					c.R.Fail("R10.9", "a list with one entry per notice line of the input is walked pairwise", p.Pos(inner.header.Instrs[0].Pos()), "the list holds one entry per notice line of the input (it is extended by the input document's own matches), and the loop over it is nested in a loop over it: the work is quadratic in the number of such lines - a megabyte of short notice lines takes minutes")
+				} else {
+					c.R.OK("R10.9", key, p.Pos(inner.header.Instrs[0].Pos()), "the list's length is not set by the input's lines")
+				}
+			}
+		}
+	}
+	c.R.Count("R10.9:loops over a list nested in a loop over the same list", n)
+	c.R.RequireMin("R10.9", "loops over a list nested in a loop over the same list", n, 1)
 }
